@@ -239,11 +239,11 @@ func c10World(t *testing.T, p c10Params, instants *[]int64) rt.Result {
 	sc := c10Find(p.Script)
 	ceaseChecked := 0
 	extra := 0
-	if p.Stop == "ListenerFail" && p.Seed%2 == 1 {
+	if p.Stop == "ListenerFail" && mix(p.Seed)%2 == 1 {
 		extra = 2 // three listeners: all failing at the same instant, or (Seed%4 == 3) only the first
 	}
 	closeDelay := time.Duration(0)
-	if p.Step >= 0 && p.Seed%4 == 1 {
+	if p.Step >= 0 && mix(p.Seed)%4 == 1 {
 		// quiesced stops only (nothing contends for Server.mu): closing a connection takes
 		// 100 us, so a stop that returns before its connections are closed is seen
 		closeDelay = 100 * time.Microsecond
@@ -253,7 +253,7 @@ func c10World(t *testing.T, p c10Params, instants *[]int64) rt.Result {
 		lisDelay = 300 * time.Microsecond // Serve takes that long to close its listener
 	}
 	closeYields := 0
-	if p.Step < 0 && p.Seed%2 == 1 {
+	if p.Step < 0 && mix(p.Seed)%2 == 1 {
 		closeYields = 40 // timed stops: a close that is slow without letting virtual time pass
 	}
 	out := hz.Run(t, hz.Opts{Seed: p.Seed, HookMode: p.Hook, HookDelays: c10FixedDelays, ExtraListeners: extra, CloseDelay: closeDelay, CloseYields: closeYields, LisCloseDelay: lisDelay}, func(w *hz.World) {
@@ -362,7 +362,7 @@ func c10World(t *testing.T, p c10Params, instants *[]int64) rt.Result {
 			// the listener fails: Serve must stop every peer as on Close and return that error
 			w.Lis.Fail(errors.New("injected accept failure"))
 			for k, l := range w.Extra {
-				if p.Seed%4 == 3 {
+				if mix(p.Seed)%4 == 3 {
 					break // the other listeners are fine: Serve closes them and joins their accept loops
 				}
 				l.Fail(fmt.Errorf("injected accept failure on extra listener %d", k))
@@ -478,7 +478,7 @@ func c10World(t *testing.T, p c10Params, instants *[]int64) rt.Result {
 // connection ends up closed on corebgp's side, and the listener goes on serving.
 func c10DeleteRace(t *testing.T, seed uint64) rt.Result {
 	races, served := 0, 0
-	out := hz.Run(t, hz.Opts{Seed: seed, HookMode: []int{hz.HookOff, hz.HookYield}[seed%2]}, func(w *hz.World) {
+	out := hz.Run(t, hz.Opts{Seed: seed, HookMode: []int{hz.HookOff, hz.HookYield}[mix(seed)%2]}, func(w *hz.World) {
 		r := rand.New(rand.NewPCG(seed, 1010))
 		for round := 0; round < 40; round++ {
 			ps := hz.StdPeer("10.0.1.1")
